@@ -28,13 +28,8 @@ theorem NoB1.completeBlock2 (cfg : Cfg) (t : Req) (r : Resp) : NoB1 (completeBlo
   | none => rw [completeBlock2_none hb]; trivial
   | some b =>
     rw [completeBlock2_some hb]
-    split
-    · trivial
-    · split
-      · trivial
-      · split
-        · trivial
-        · exact NoB1.enterB2 _ _ _
+    repeat' split
+    all_goals first | trivial | exact NoB1.enterB2 _ _ _
 
 theorem NoB1.step {cfg : Cfg} {ph : Phase} (h : NoB1 ph) (r : Resp) : NoB1 (step cfg ph r) := by
   cases ph with
@@ -340,7 +335,7 @@ def Truthful (body : Bytes) (r : Resp) : Prop :=
 
 theorem b2_ok_is_body (cfg : Cfg) (t : Req) (body : Bytes) (rs : List Resp) :
     ∀ (a : Asm) (cur : Req) (k : Nat), k ≤ body.length → a.payload = body.take k →
-    (∀ r ∈ rs, r.block2.isSome = true ∧ (r.etag = a.etag → Truthful body r)) →
+    (∀ r ∈ rs, r.block2.isSome = true ∧ (r.etag = a.etag → r.code = a.code → Truthful body r)) →
     ∀ o, (go cfg (.b2 t a cur) rs).2 = .ok o → o.payload = body ∧ o.etag = a.etag ∧ o.code = a.code := by
   induction rs with
   | nil => intro a cur k _ _ _ o h; simp [go] at h
@@ -351,6 +346,10 @@ theorem b2_ok_is_body (cfg : Cfg) (t : Req) (body : Bytes) (rs : List Resp) :
     obtain ⟨hsome, htr⟩ := H r (List.mem_cons_self)
     obtain ⟨b, hb⟩ := Option.isSome_iff_exists.mp hsome
     rw [step_b2_some hb] at h
+    by_cases hc : r.code ≠ a.code
+    · simp [hc] at h
+    rw [if_neg hc] at h
+    have hc' : r.code = a.code := by simpa using hc
     by_cases hv : b.validFor r.payload.length = true
     · by_cases hs : b.start ≠ a.payload.length
       · simp [hv, hs] at h
@@ -358,7 +357,7 @@ theorem b2_ok_is_body (cfg : Cfg) (t : Req) (body : Bytes) (rs : List Resp) :
         · simp [hv, hs, he] at h
         · have hs' : b.start = a.payload.length := by simpa using hs
           have he' : r.etag = a.etag := by simpa using he
-          obtain ⟨b', hb', hpay, hmore⟩ := htr he'
+          obtain ⟨b', hb', hpay, hmore⟩ := htr he' hc'
           rw [hb] at hb'; cases hb'
           have hlen : a.payload.length = k := by rw [ha, List.length_take]; omega
           have hnew : a.payload ++ r.payload = body.take (k + b.size) := by
@@ -385,19 +384,25 @@ theorem b2_ok_is_body (cfg : Cfg) (t : Req) (body : Bytes) (rs : List Resp) :
             omega
     · simp [hv] at h
 
-/-- the first block: number 0, truthful -/
-def TruthfulFirst (body : Bytes) (r : Resp) : Prop :=
-  ∃ b, r.block2 = some b ∧ b.num = 0 ∧ r.payload = body.take b.size ∧
-    (b.more = true ↔ b.size < body.length)
-
+/-- From the first response on: the first response only has to be truthfully labelled (a first
+block that does not start at offset 0 is refused, whatever its more flag); later responses are
+arbitrary unless they carry the first block's ETag AND response code. -/
 theorem completeBlock2_ok_is_body (cfg : Cfg) (t : Req) (body : Bytes) (initial : Resp)
-    (rs : List Resp) (h0 : TruthfulFirst body initial)
-    (H : ∀ r ∈ rs, r.block2.isSome = true ∧ (r.etag = initial.etag → Truthful body r)) :
+    (rs : List Resp) (h0 : Truthful body initial)
+    (H : ∀ r ∈ rs, r.block2.isSome = true ∧
+      (r.etag = initial.etag → r.code = initial.code → Truthful body r)) :
     ∀ o, (go cfg (completeBlock2 cfg t initial) rs).2 = .ok o →
       o.payload = body ∧ o.etag = initial.etag ∧ o.code = initial.code := by
   intro o h
-  obtain ⟨b, hb, hnum, hpay, hmore⟩ := h0
+  obtain ⟨b, hb, hpay, hmore⟩ := h0
   rw [completeBlock2_some hb] at h
+  by_cases hst : b.start ≠ 0
+  · simp [hst] at h
+  rw [if_neg hst] at h
+  have hst' : b.start = 0 := by simpa using hst
+  have hnum : b.num = 0 := BlockOpt.start_eq_zero.mp hst'
+  rw [hst', List.drop_zero] at hpay
+  rw [hst', Nat.zero_add] at hmore
   by_cases hm : b.more = true
   · have hlt := hmore.mp hm
     by_cases hv : b.validFor initial.payload.length = true
